@@ -316,9 +316,12 @@ def run(ctx):
         for g in comp.generators:
             for c in g.ifs:
                 conds += c.values if isinstance(c, ast.BoolOp) and isinstance(c.op, ast.And) else [c]
-        texts = [ast.unparse(c) for c in conds]
-        has_pre = any(".startswith(self.CACHE_FILE_PREFIX)" in t and not t.startswith("not ") for t in texts)
-        has_post = any(".endswith(self.CACHE_FILE_POSTFIX)" in t and not t.startswith("not ") for t in texts)
+        # each test must be a conjunct of its own (a disjunction `prefix or postfix` admits near-miss foreign names)
+        def is_test(c, meth, const):
+            return isinstance(c, ast.Call) and isinstance(c.func, ast.Attribute) and c.func.attr == meth and len(c.args) == 1 \
+                and ast.unparse(c.args[0]) == "self." + const
+        has_pre = any(is_test(c, "startswith", "CACHE_FILE_PREFIX") for c in conds)
+        has_post = any(is_test(c, "endswith", "CACHE_FILE_POSTFIX") for c in conds)
         if has_pre and has_post:
             okf = True
     ctx.expect(okf, "R18.3", "_get_cache_files[filter]",
